@@ -427,6 +427,13 @@ def _merge_hook(ctx, prefix):
             ctx.coverage[prefix + k] = ctx.coverage.get(prefix + k, 0) + n
 
 
+def c12(ctx):
+    outs = sm_check(ctx, extra={"post": "c12_shift"})
+    keep_only(ctx, lambda v: not v["kind"].startswith("outcome:"))
+    ctx.coverage["shift_pairs"] = sum(o.get("shift_pairs", 0) for o in outs)
+    ctx.coverage["shift_pairs_with_outages"] = sum(o.get("shift_pairs_with_outages", 0) for o in outs)
+
+
 def c04(ctx):
     sm_check(ctx, n_quick=200, extra={"hook": "c04", "record_env": True})
     keep_only(ctx, lambda v: not v["kind"].startswith("outcome:") and not v["kind"].startswith("state:"))
@@ -442,5 +449,5 @@ def c18(ctx):
 
 TABLE = {
     "C01": c_generic, "C02": c_generic, "C03": c_generic, "C05": c05, "C07": c_generic, "C08": c_generic,
-    "C09": c_generic, "C10": c_generic, "C11": c11, "C12": c_generic, "C20": c20, "C04": c04, "C18": c18,
+    "C09": c_generic, "C10": c_generic, "C11": c11, "C12": c12, "C20": c20, "C04": c04, "C18": c18,
 }
